@@ -22,3 +22,9 @@ Props/MapProps.vos Props/MapProps.vok Props/MapProps.required_vos: Props/MapProp
 Props/ColorProps.vo Props/ColorProps.glob Props/ColorProps.v.beautified Props/ColorProps.required_vo: Props/ColorProps.v Lib/U63Ops.vo Lib/Sweep.vo
 Props/ColorProps.vio: Props/ColorProps.v Lib/U63Ops.vio Lib/Sweep.vio
 Props/ColorProps.vos Props/ColorProps.vok Props/ColorProps.required_vos: Props/ColorProps.v Lib/U63Ops.vos Lib/Sweep.vos
+Spec/ISA.vo Spec/ISA.glob Spec/ISA.v.beautified Spec/ISA.required_vo: Spec/ISA.v 
+Spec/ISA.vio: Spec/ISA.v 
+Spec/ISA.vos Spec/ISA.vok Spec/ISA.required_vos: Spec/ISA.v 
+Props/CpuEqLib.vo Props/CpuEqLib.glob Props/CpuEqLib.v.beautified Props/CpuEqLib.required_vo: Props/CpuEqLib.v Lib/ZOps.vo Lib/Machine.vo
+Props/CpuEqLib.vio: Props/CpuEqLib.v Lib/ZOps.vio Lib/Machine.vio
+Props/CpuEqLib.vos Props/CpuEqLib.vok Props/CpuEqLib.required_vos: Props/CpuEqLib.v Lib/ZOps.vos Lib/Machine.vos
